@@ -109,3 +109,57 @@ func shipReplay(w *World, g *oblGroup, o *Obligation, model map[string]string, r
 	d["output"] = keep
 	return d
 }
+
+// hubOracleFor maps an obligation of package hub to the oracle of replay_templates/hub_search_test.go.
+func hubOracleFor(g *oblGroup) string {
+	n := g.Name
+	switch {
+	case strings.Contains(n, "G5-"):
+		return "trust"
+	case strings.Contains(n, ".F2-"):
+		return "forget"
+	case strings.Contains(n, ".D2-"), strings.Contains(n, ".D3-"):
+		return "unpair"
+	case regexp.MustCompile(`\.(S|R|U|X|C|P)\d-`).MatchString(n), strings.Contains(n, "N0-def"):
+		return "format"
+	}
+	return ""
+}
+
+func hubReplay(w *World, g *oblGroup, repo string) map[string]interface{} {
+	if !strings.Contains(g.Fn, modPath+"/hub.") && !strings.Contains(g.Fn, modPath+"/util.") {
+		return nil
+	}
+	oracle := hubOracleFor(g)
+	if oracle == "" {
+		return nil
+	}
+	tmp, err := os.MkdirTemp("", "govc-hubreplay-")
+	if err != nil {
+		return nil
+	}
+	defer os.RemoveAll(tmp)
+	req := filepath.Join(tmp, "request.json")
+	out := filepath.Join(tmp, "scenario.json")
+	writeJSON(req, map[string]interface{}{"oracle": oracle})
+	os.Setenv("REPLAY_REQUEST", req)
+	os.Setenv("REPLAY_OUT", out)
+	defer os.Unsetenv("REPLAY_REQUEST")
+	defer os.Unsetenv("REPLAY_OUT")
+	log, ran := runOverlayTest(repo, "hub", "/verif/replay_templates/hub_search_test.go", "TestReplayHubSearch", false)
+	rep := strings.Contains(log, "REPRODUCED")
+	d := map[string]interface{}{"driver": "bounded scenario search on the real hub operations (replay_templates/hub_search_test.go)", "oracle": oracle, "ran": ran, "reproduced": rep}
+	if b, err := os.ReadFile(out); err == nil {
+		var sc map[string]interface{}
+		json.Unmarshal(b, &sc)
+		d["failing_scenario"] = sc
+	}
+	var keep []string
+	for _, ln := range strings.Split(log, "\n") {
+		if strings.Contains(ln, "REPRODUCED") || strings.Contains(ln, "no failing run") || strings.HasPrefix(ln, "ok") || strings.HasPrefix(ln, "FAIL") || strings.Contains(ln, "panic:") {
+			keep = append(keep, truncate(ln, 1500))
+		}
+	}
+	d["output"] = keep
+	return d
+}
